@@ -15,7 +15,7 @@
       example, and exactness when every partial sum fits.
 
    Values are rationals (QArith), as in DecTheory: Qv (DFin n c e) = qval n c e. *)
-From Coq Require Import List ZArith Bool Lia QArith Qpower Qabs Qround String.
+From Coq Require Import List ZArith Bool Lia QArith Qpower Qabs Qround Qfield String.
 From JM Require Import Base.Outcome Base.Bytes Num.Dec Num.Flt Json.Value
   Model.Array Model.Compare Model.NumberFns Model.Functions Proofs.DecTheory.
 Import ListNotations.
@@ -559,4 +559,1019 @@ Proof.
   assert (E : (Qv a + Qv (dec_neg b) == Qv a - Qv b)%Q) by (rewrite Qv_neg; reflexivity).
   destruct (add_exact a (dec_neg b) Ha (finite_neg b Hb) (fits34_comp _ _ (Qeq_sym _ _ E) HF)) as [H1 H2].
   split; [exact H1|]. rewrite H2. exact E.
+Qed.
+
+(* ------------------------------------------------------------------ *)
+(* General behaviour of rounding: fit returns a canonical decimal or   *)
+(* an infinity, never a NaN                                            *)
+(* ------------------------------------------------------------------ *)
+
+Lemma drop_digits_bounds : forall c k, 0 <= c -> 0 < k ->
+  c / 10 ^ k <= drop_digits c k <= c / 10 ^ k + 1 /\
+  2 * Z.abs (drop_digits c k * 10 ^ k - c) <= 10 ^ k.
+Proof.
+  intros c k Hc Hk. unfold drop_digits, pow10.
+  assert (P1 : 0 < 10 ^ (k - 1)) by (apply pow10_pos; lia).
+  assert (EP : 10 ^ k = 10 * 10 ^ (k - 1)).
+  { replace k with (Z.succ (k - 1)) at 1 by lia. apply Z.pow_succ_r. lia. }
+  pose proof (Z.div_mod c (10 ^ k) ltac:(lia)) as DM.
+  pose proof (Z.mod_pos_bound c (10 ^ k) ltac:(lia)) as MB.
+  set (q := c / 10 ^ k) in *. set (r := c mod 10 ^ k) in *.
+  destruct (Z.gtb_spec r (5 * 10 ^ (k - 1))).
+  - split; [lia|]. nia.
+  - destruct (Z.eqb_spec r (5 * 10 ^ (k - 1))).
+    + destruct (Z.even q); (split; [lia|nia]).
+    + split; [lia|]. nia.
+Qed.
+
+Lemma round_coef_wf : forall c e c' e', 0 <= c -> round_coef c e = (c', e') ->
+  0 <= c' /\ digits c' <= prec34 /\ (c = 0 <-> c' = 0) /\ e <= e'.
+Proof.
+  intros c e c' e' Hc. unfold round_coef.
+  destruct (Z.leb_spec (digits c) prec34) as [Hd|Hd].
+  - intros E; inversion E; subst. repeat split; try lia.
+  - unfold prec34 in *. set (d := digits c) in *. set (k := d - 34).
+    assert (Hc0 : 0 < c).
+    { destruct (Z.eq_dec c 0) as [->|]; [|lia]. unfold d in Hd. rewrite digits_nonpos in Hd; lia. }
+    pose proof (digits_spec c Hc0) as [L U]. fold d in L, U.
+    assert (Hk : 0 < k) by (unfold k; lia).
+    pose proof (drop_digits_bounds c k Hc Hk) as [[B1 B2] _].
+    assert (Pk : 0 < 10 ^ k) by (apply pow10_pos; lia).
+    assert (QL : 10 ^ 33 <= c / 10 ^ k).
+    { apply Z.div_le_lower_bound; [lia|]. rewrite <- Z.pow_add_r by lia.
+      replace (k + 33) with (d - 1) by (unfold k; lia). exact L. }
+    assert (QU : c / 10 ^ k < 10 ^ 34).
+    { apply Z.div_lt_upper_bound; [lia|]. rewrite <- Z.pow_add_r by lia.
+      replace (k + 34) with d by (unfold k; lia). exact U. }
+    set (q := drop_digits c k) in *. clearbody q.
+    destruct (Z.gtb_spec (digits q) 34) as [Hq|Hq]; intros E; inversion E; subst c' e'.
+    + assert (H : q = 10 ^ 34).
+      { destruct (Z.eq_dec q (10 ^ 34)); [assumption|]. exfalso.
+        assert (digits q <= 34).
+        { apply digits_le_of_lt; lia. }
+        lia. }
+      rewrite H. change (10 ^ 34 / 10) with (10 ^ 33).
+      repeat split; try lia.
+      apply digits_le_of_lt; [lia | reflexivity].
+    + repeat split; try lia.
+Qed.
+
+Lemma fit_cases : forall n c e, 0 <= c -> canonical (fit n c e) \/ fit n c e = DInf n.
+Proof.
+  intros n c e Hc. unfold fit.
+  destruct (round_coef c e) as [c1 e1] eqn:ER.
+  destruct (round_coef_wf c e c1 e1 Hc ER) as (H0 & HD & _ & _).
+  unfold prec34 in *.
+  destruct (Z.eqb_spec c1 0) as [->|Hn].
+  - left. unfold canonical. rewrite digits_nonpos by lia. unfold prec34, emin, emax. lia.
+  - destruct (Z.gtb_spec e1 emax) as [Hhi|Hhi].
+    + destruct (Z.leb_spec (digits c1 + (e1 - emax)) 34); [left | right; reflexivity].
+      unfold canonical. unfold pow10. rewrite digits_mul_pow by lia.
+      assert (0 < 10 ^ (e1 - emax)) by (apply pow10_pos; lia).
+      unfold prec34, emin, emax in *. repeat split; try lia. 
+    + destruct (Z.ltb_spec e1 emin) as [Hlo|Hlo]; left.
+      * destruct (Z.gtb_spec (emin - e1) 40).
+        -- unfold canonical. rewrite digits_nonpos by lia. unfold prec34, emin, emax. lia.
+        -- pose proof (drop_digits_bounds c1 (emin - e1) H0 ltac:(lia)) as [[B1 B2] _].
+           assert (P : 0 < 10 ^ (emin - e1)) by (apply pow10_pos; lia).
+           assert (c1 < 10 ^ 34) by (apply digits_lt_pow; unfold prec34; lia).
+           assert (c1 / 10 ^ (emin - e1) <= c1 / 10 ^ 1).
+           { apply Z.div_le_compat_l; [lia|]. split; [reflexivity|].
+             apply Z.pow_le_mono_r; lia. }
+           assert (c1 / 10 ^ 1 < 10 ^ 33).
+           { apply Z.div_lt_upper_bound; [reflexivity|]. change (10 ^ 1 * 10 ^ 33) with (10 ^ 34). lia. }
+           assert (0 <= c1 / 10 ^ (emin - e1)) by (apply Z.div_pos; lia).
+           unfold canonical. repeat split; try lia.
+           ++ apply digits_le_of_lt; [unfold prec34; lia|]. unfold prec34.
+              change (10 ^ 34) with (10 * 10 ^ 33). lia.
+           ++ unfold emin, emax; lia.
+      * unfold canonical. unfold prec34. repeat split; lia.
+Qed.
+
+Lemma fit_not_nan : forall n c e, is_nan (fit n c e) = false.
+Proof.
+  intros. unfold fit. destruct (round_coef c e) as [c1 e1].
+  repeat match goal with |- context [if ?b then _ else _] => destruct b end; reflexivity.
+Qed.
+
+Lemma fit_sign : forall n c e, sign_of (fit n c e) = n.
+Proof.
+  intros. unfold fit. destruct (round_coef c e) as [c1 e1].
+  repeat match goal with |- context [if ?b then _ else _] => destruct b end; reflexivity.
+Qed.
+
+(* ------------------------------------------------------------------ *)
+(* D. errors instead of infinities and NaNs                            *)
+(* ------------------------------------------------------------------ *)
+
+Lemma trap_ok : forall d v, trap d = Ok v -> v = vdec d /\ fin d.
+Proof.
+  intros [n c e|n|] v; unfold trap; simpl; intros H; try discriminate.
+  inversion H. split; [reflexivity | exact I].
+Qed.
+
+Lemma trap_fin : forall d, fin d -> trap d = Ok (vdec d).
+Proof. intros [n c e|n|] H; simpl in H; try contradiction. reflexivity. Qed.
+
+Lemma trap_inf : forall n, trap (DInf n) = Err EInfinity.
+Proof. reflexivity. Qed.
+Lemma trap_nan : trap DNaN = Err ENotANumber.
+Proof. reflexivity. Qed.
+
+(* whatever the operands, an Ok result of the decimal path is a finite decimal *)
+Theorem arith_result_finite : forall fop dop x y v,
+  to_float x = None \/ to_float y = None -> arith fop dop x y = Ok v ->
+  exists a b, to_decimal x = Some a /\ to_decimal y = Some b /\
+              v = VNum (NDec (dop a b)) /\ fin (dop a b).
+Proof.
+  intros fop dop x y v HF H. rewrite no_float_detour in H by assumption.
+  destruct (to_decimal x) as [a|], (to_decimal y) as [b|]; try discriminate.
+  apply trap_ok in H. exists a, b. tauto.
+Qed.
+
+Theorem modulo_result_finite : forall x y v,
+  to_float x = None \/ to_float y = None -> modulo x y = Ok v ->
+  exists d, v = VNum (NDec d) /\ fin d.
+Proof.
+  intros x y v HF H. rewrite no_float_detour_modulo in H by assumption.
+  destruct (to_decimal x) as [a|], (to_decimal y) as [b|]; try discriminate.
+  apply trap_ok in H. eexists; exact H.
+Qed.
+
+(* division by zero *)
+Theorem divide_by_zero_traps : forall x y a b,
+  to_float x = None \/ to_float y = None ->
+  to_decimal x = Some a -> to_decimal y = Some b -> is_zero b = true ->
+  divide x y = Err (if is_inf a || negb (is_zero a || is_nan a) then EInfinity else ENotANumber).
+Proof.
+  intros x y a b HF Ha Hb Hz. unfold divide. rewrite no_float_detour by assumption.
+  rewrite Ha, Hb. destruct b as [n2 c2 e2| |]; simpl in Hz; try discriminate.
+  destruct a as [n1 c1 e1|n1|]; simpl; try reflexivity.
+  rewrite Hz. destruct (c1 =? 0); reflexivity.
+Qed.
+
+Corollary divide_by_zero_error : forall x y a b,
+  to_float x = None \/ to_float y = None ->
+  to_decimal x = Some a -> to_decimal y = Some b -> is_zero b = true ->
+  divide x y = Err EInfinity \/ divide x y = Err ENotANumber.
+Proof.
+  intros x y a b HF Ha Hb Hz. rewrite (divide_by_zero_traps x y a b) by assumption.
+  destruct (_ || _); auto.
+Qed.
+
+Theorem integer_divide_by_zero_traps : forall x y a b,
+  to_float x = None \/ to_float y = None ->
+  to_decimal x = Some a -> to_decimal y = Some b -> is_zero b = true ->
+  integer_divide x y = Err (if is_inf a || negb (is_zero a || is_nan a) then EInfinity else ENotANumber).
+Proof.
+  intros x y a b HF Ha Hb Hz. rewrite no_float_detour_integer_divide by assumption.
+  rewrite Ha, Hb. destruct b as [n2 c2 e2| |]; simpl in Hz; try discriminate.
+  destruct a as [n1 c1 e1|n1|]; simpl; try reflexivity.
+  rewrite Hz. destruct (c1 =? 0); reflexivity.
+Qed.
+
+Theorem modulo_by_zero_traps : forall x y a b,
+  to_float x = None \/ to_float y = None ->
+  to_decimal x = Some a -> to_decimal y = Some b -> is_zero b = true ->
+  modulo x y = Err ENotANumber.
+Proof.
+  intros x y a b HF Ha Hb Hz. rewrite no_float_detour_modulo by assumption.
+  rewrite Ha, Hb. destruct b as [n2 c2 e2| |]; simpl in Hz; try discriminate.
+  destruct a as [n1 c1 e1|n1|]; simpl; try reflexivity.
+  rewrite Hz. destruct (c1 =? 0); reflexivity.
+Qed.
+
+(* overflow: 9e6144 * 10 *)
+Example overflow_traps_example :
+  to_decimal (jn "9e6144") = Some (DFin false 9000000000000000000000000000000000 6111) /\
+  multiply (jn "9e6144") (jn "10") = Err EInfinity /\
+  add (jn "9e6144") (jn "9e6144") = Err EInfinity /\
+  subtract (jn "-9e6144") (jn "9e6144") = Err EInfinity /\
+  divide (jn "9e6144") (jn "0.1") = Err EInfinity.
+Proof. vm_compute. repeat split. Qed.
+
+(* ------------------------------------------------------------------ *)
+(* F. unary operators and functions                                    *)
+(* ------------------------------------------------------------------ *)
+
+Lemma Qv_zero : forall d, is_zero d = true -> (Qv d == 0)%Q.
+Proof.
+  intros [n c e| |]; simpl; intros H; try reflexivity.
+  apply Z.eqb_eq in H. subst c. apply qval_zero.
+Qed.
+
+(* unary minus: the value is negated, nothing is rounded (a zero operand is
+   returned unchanged, which has the same value) *)
+Theorem negate_value : forall v d, to_float v = None -> to_decimal v = Some d -> fin d ->
+  exists d', negate v = vdec d' /\ fin d' /\ (Qv d' == - Qv d)%Q.
+Proof.
+  intros v d HF HD Hfin. rewrite no_float_detour_negate by assumption. rewrite HD.
+  destruct (is_zero d) eqn:Z0.
+  - exists d. split; [reflexivity|]. split; [assumption|].
+    rewrite (Qv_zero d Z0). reflexivity.
+  - exists (dec_neg d). split; [reflexivity|]. split; [|apply Qv_neg].
+    destruct d; simpl in *; auto.
+Qed.
+
+(* unary plus is the identity on the syntax tree; nothing to prove. *)
+
+Lemma Qv_abs : forall d, finite d -> (Qv (dec_abs d) == Qabs (Qv d))%Q.
+Proof.
+  intros [n c e| |] H; simpl in H; try contradiction. simpl.
+  symmetry. apply qval_false_abs. assumption.
+Qed.
+
+Theorem abs_value : forall v d, to_float v = None -> to_decimal v = Some d -> finite d ->
+  abs v = Ok (vdec (dec_abs d)) /\ finite (dec_abs d) /\ (Qv (dec_abs d) == Qabs (Qv d))%Q.
+Proof.
+  intros v d HF HD Hfin. unfold abs. rewrite no_float_detour_num1 by assumption. rewrite HD.
+  split; [reflexivity|]. split; [|apply Qv_abs; assumption].
+  destruct d; simpl in *; auto.
+Qed.
+
+(* value of a decimal with a negative exponent as a fraction *)
+Lemma qval_frac : forall n c e, e < 0 ->
+  (qval n c e == sgn n c # Z.to_pos (10 ^ (- e)))%Q.
+Proof.
+  intros n c e He. unfold qval.
+  assert (P : 0 < 10 ^ (- e)) by (apply pow10_pos; lia).
+  replace e with (- (- e)) at 1 by lia.
+  rewrite Qpower_opp. rewrite <- Zpower_Qpower by lia.
+  destruct (10 ^ (- e)) as [|p|p] eqn:E; try lia.
+  simpl Z.to_pos. rewrite (Qmake_Qdiv (sgn n c) p). reflexivity.
+Qed.
+
+Lemma qval_int : forall n c e, 0 <= e -> (qval n c e == inject_Z (sgn n c * 10 ^ e))%Q.
+Proof.
+  intros n c e He. unfold qval. rewrite inject_Z_mult, Zpower_Qpower by lia. reflexivity.
+Qed.
+
+Lemma qval_e0 : forall n c, (qval n c 0 == inject_Z (sgn n c))%Q.
+Proof. intros. rewrite qval_int by lia. rewrite Z.mul_1_r. reflexivity. Qed.
+
+Lemma Qfloor_frac : forall a P, 0 < P -> Qfloor (a # Z.to_pos P) = a / P.
+Proof. intros a P HP. unfold Qfloor. rewrite Z2Pos.id by assumption. reflexivity. Qed.
+
+Lemma Qceiling_frac : forall a P, 0 < P -> Qceiling (a # Z.to_pos P) = - ((- a) / P).
+Proof.
+  intros a P HP. unfold Qceiling. unfold Qopp. simpl Qnum. simpl Qden.
+  rewrite Qfloor_frac by assumption. reflexivity.
+Qed.
+
+(* floor and ceil are the mathematical floor and ceiling of the value; they
+   never round (the results are integers of at most as many digits) *)
+Theorem dec_floor_value : forall d, finite d ->
+  finite (dec_floor d) /\ (Qv (dec_floor d) == inject_Z (Qfloor (Qv d)))%Q.
+Proof.
+  intros [n c e| |] H; simpl in H; try contradiction. unfold dec_floor.
+  destruct (Z.leb_spec 0 e) as [He|He].
+  - split; [exact H|]. simpl Qv. rewrite (Qfloor_comp _ _ (qval_int n c e He)).
+    rewrite Qfloor_Z. apply qval_int. assumption.
+  - assert (P : 0 < 10 ^ (- e)) by (apply pow10_pos; lia). unfold pow10.
+    simpl Qv. rewrite (Qfloor_comp _ _ (qval_frac n c e He)). rewrite Qfloor_frac by assumption.
+    pose proof (Z.div_mod c (10 ^ (- e)) ltac:(lia)) as DM.
+    pose proof (Z.mod_pos_bound c (10 ^ (- e)) P) as MB.
+    assert (Q0 : 0 <= c / 10 ^ (- e)) by (apply Z.div_pos; lia).
+    destruct n.
+    + destruct (Z.eqb_spec (c mod 10 ^ (- e)) 0) as [R0|R0]; simpl Qv; (split; [simpl; lia|]);
+        rewrite qval_e0; unfold sgn; apply inject_Z_injective.
+      * rewrite Z.div_opp_l_z by lia. reflexivity.
+      * rewrite Z.div_opp_l_nz by lia. lia.
+    + simpl Qv. split; [simpl; lia|]. rewrite qval_e0. reflexivity.
+Qed.
+
+Theorem dec_ceil_value : forall d, finite d ->
+  finite (dec_ceil d) /\ (Qv (dec_ceil d) == inject_Z (Qceiling (Qv d)))%Q.
+Proof.
+  intros [n c e| |] H; simpl in H; try contradiction. unfold dec_ceil.
+  destruct (Z.leb_spec 0 e) as [He|He].
+  - split; [exact H|]. simpl Qv. rewrite (Qceiling_comp _ _ (qval_int n c e He)).
+    rewrite Qceiling_Z. apply qval_int. assumption.
+  - assert (P : 0 < 10 ^ (- e)) by (apply pow10_pos; lia). unfold pow10.
+    simpl Qv. rewrite (Qceiling_comp _ _ (qval_frac n c e He)). rewrite Qceiling_frac by assumption.
+    pose proof (Z.div_mod c (10 ^ (- e)) ltac:(lia)) as DM.
+    pose proof (Z.mod_pos_bound c (10 ^ (- e)) P) as MB.
+    assert (Q0 : 0 <= c / 10 ^ (- e)) by (apply Z.div_pos; lia).
+    destruct n.
+    + simpl Qv. split; [simpl; lia|]. rewrite qval_e0. unfold sgn.
+      rewrite Z.opp_involutive. reflexivity.
+    + destruct (Z.eqb_spec (c mod 10 ^ (- e)) 0) as [R0|R0]; simpl Qv; (split; [simpl; lia|]);
+        rewrite qval_e0; unfold sgn; apply inject_Z_injective.
+      * rewrite Z.div_opp_l_z by lia. lia.
+      * rewrite Z.div_opp_l_nz by lia. lia.
+Qed.
+
+Theorem floor_value : forall v d, to_float v = None -> to_decimal v = Some d -> finite d ->
+  floor v = Ok (vdec (dec_floor d)) /\ finite (dec_floor d) /\
+  (Qv (dec_floor d) == inject_Z (Qfloor (Qv d)))%Q.
+Proof.
+  intros v d HF HD Hfin. unfold floor. rewrite no_float_detour_num1 by assumption. rewrite HD.
+  split; [reflexivity | apply dec_floor_value; assumption].
+Qed.
+
+Theorem ceil_value : forall v d, to_float v = None -> to_decimal v = Some d -> finite d ->
+  ceil v = Ok (vdec (dec_ceil d)) /\ finite (dec_ceil d) /\
+  (Qv (dec_ceil d) == inject_Z (Qceiling (Qv d)))%Q.
+Proof.
+  intros v d HF HD Hfin. unfold ceil. rewrite no_float_detour_num1 by assumption. rewrite HD.
+  split; [reflexivity | apply dec_ceil_value; assumption].
+Qed.
+
+(* to_number: a string holding a JSON number becomes the decimal that the
+   same text denotes as a JSON number; numbers pass through unchanged *)
+Theorem to_number_string : forall s d, json_number_ok s = true ->
+  to_decimal (VNum (NJson s)) = Some d -> to_number (VStr s) = vdec d.
+Proof. intros s d H1 H2. simpl in *. rewrite H1, H2. reflexivity. Qed.
+
+Theorem to_number_number : forall n, to_number (VNum n) = VNum n.
+Proof. reflexivity. Qed.
+
+Example to_number_examples :
+  to_number (VStr (bs "0.1")) = vdec (DFin false 1 (-1)) /\
+  to_number (VStr (bs "-12.50e3")) = vdec (DFin true 1250 1) /\
+  to_number (VStr (bs "12345678901234567890123456789012345678")) =
+    vdec (DFin false 1234567890123456789012345678901235 4).
+Proof. vm_compute. repeat split. Qed.
+
+(* ------------------------------------------------------------------ *)
+(* H (second part). sum is exact when every partial sum is representable *)
+(* ------------------------------------------------------------------ *)
+
+Fixpoint qsum (ds : list dec) : Q :=
+  match ds with [] => 0%Q | d :: t => (Qv d + qsum t)%Q end.
+
+(* every operand is finite and every partial sum acc + d1 + ... + di fits *)
+Fixpoint partial_sums_fit (acc : Q) (ds : list dec) : Prop :=
+  match ds with
+  | [] => True
+  | d :: t => finite d /\ fits34 (acc + Qv d) /\ partial_sums_fit (acc + Qv d) t
+  end.
+
+Lemma partial_sums_fit_comp : forall ds a a', (a == a')%Q ->
+  partial_sums_fit a ds -> partial_sums_fit a' ds.
+Proof.
+  induction ds as [|d t IH]; intros a a' E H; [exact I|].
+  destruct H as (H1 & H2 & H3).
+  assert (E' : (a + Qv d == a' + Qv d)%Q) by (rewrite E; reflexivity).
+  split; [exact H1|]. split; [exact (fits34_comp _ _ E' H2) | exact (IH _ _ E' H3)].
+Qed.
+
+Lemma sum_loop_exact : forall l ds r,
+  Forall2 (fun v d => to_decimal v = Some d) l ds -> finite r ->
+  partial_sums_fit (Qv r) ds ->
+  exists d, sum_loop l r = Ok d /\ finite d /\ (Qv d == Qv r + qsum ds)%Q.
+Proof.
+  intros l ds r HF. revert r. induction HF as [|v d l ds Hv HF IH]; intros r Hr HP.
+  - exists r. split; [reflexivity|]. split; [assumption|]. simpl. ring.
+  - destruct HP as (Hd & Hfit & HP). cbn [sum_loop]. rewrite Hv.
+    destruct (add_exact r d Hr Hd Hfit) as [HC HV].
+    destruct (IH (dec_add r d) (canonical_finite _ HC)
+                 (partial_sums_fit_comp ds _ _ (Qeq_sym _ _ HV) HP)) as (d' & E1 & E2 & E3).
+    exists d'. split; [exact E1|]. split; [exact E2|].
+    rewrite E3, HV. simpl. ring.
+Qed.
+
+Theorem sum_exact_when_partial_sums_fit : forall l ds,
+  Forall2 (fun v d => to_decimal v = Some d) l ds ->
+  partial_sums_fit 0 ds ->
+  exists d, sum (VArr l) = Ok (vdec d) /\ finite d /\ (Qv d == qsum ds)%Q.
+Proof.
+  intros l ds HF HP.
+  assert (Z0 : (0 == Qv dec_zero)%Q) by (unfold dec_zero; simpl; rewrite qval_zero; reflexivity).
+  destruct (sum_loop_exact l ds dec_zero HF ltac:(simpl; lia)
+              (partial_sums_fit_comp ds _ _ Z0 HP)) as (d & E1 & E2 & E3).
+  exists d. split; [|split; [exact E2|]].
+  - unfold sum. rewrite E1. simpl. apply trap_fin. apply finite_fin. exact E2.
+  - rewrite E3, <- Z0. ring.
+Qed.
+
+(* sum never uses binary floating point, even on an array of Go floats: each
+   element is converted to decimal first (sum_loop only calls to_decimal). *)
+Lemma sum_loop_result : forall l r d, sum_loop l r = Ok d ->
+  exists ds, Forall2 (fun v d => to_decimal v = Some d) l ds /\ d = fold_left dec_add ds r.
+Proof.
+  induction l as [|v l IH]; intros r d H; simpl in H.
+  - inversion H. exists []. split; [constructor | reflexivity].
+  - destruct (to_decimal v) as [dv|] eqn:E; [|discriminate].
+    destruct (IH _ _ H) as (ds & H1 & H2).
+    exists (dv :: ds). split; [constructor; assumption | exact H2].
+Qed.
+
+Theorem sum_result_finite : forall l v, sum (VArr l) = Ok v ->
+  exists ds, Forall2 (fun v d => to_decimal v = Some d) l ds /\
+             v = vdec (fold_left dec_add ds dec_zero) /\ fin (fold_left dec_add ds dec_zero).
+Proof.
+  intros l v H. unfold sum in H.
+  destruct (sum_loop l dec_zero) as [d| | | |] eqn:E; simpl in H; try discriminate.
+  destruct (sum_loop_result _ _ _ E) as (ds & H1 & H2). subst d.
+  apply trap_ok in H. exists ds. tauto.
+Qed.
+
+(* ------------------------------------------------------------------ *)
+(* C. division                                                         *)
+(* ------------------------------------------------------------------ *)
+
+Lemma qval_abs_eq : forall n c e m k, 0 <= c ->
+  (qval n c e == inject_Z m * inject_Z 10 ^ k)%Q ->
+  (qval false c e == qval false (Z.abs m) k)%Q.
+Proof.
+  intros n c e m k Hc H.
+  rewrite <- (qval_false_abs n c e Hc). rewrite H. rewrite Qabs_Qmult.
+  rewrite (Qabs_pos (inject_Z 10 ^ k)) by (apply Qlt_le_weak, ten_pow_pos).
+  unfold qval, sgn. apply Qmult_comp; [|reflexivity].
+  unfold Qabs, inject_Z. simpl. reflexivity.
+Qed.
+
+Lemma inject_Z_neq0 : forall z, z <> 0 -> ~ (inject_Z z == 0)%Q.
+Proof. intros z H E. apply H. unfold Qeq in E. simpl in E. lia. Qed.
+
+Lemma ten_pow_neq0 : forall k, ~ (inject_Z 10 ^ k == 0)%Q.
+Proof. intros k E. pose proof (ten_pow_pos k) as P. rewrite E in P. discriminate P. Qed.
+
+Lemma sgn_xorb_inj : forall n1 n2 c1 c2, c2 <> 0 ->
+  (inject_Z (sgn n1 c1) / inject_Z (sgn n2 c2) == inject_Z (sgn (xorb n1 n2) c1) / inject_Z c2)%Q.
+Proof.
+  intros n1 n2 c1 c2 H. pose proof (inject_Z_neq0 c2 H) as N.
+  destruct n1, n2; unfold sgn; simpl xorb; cbv iota; rewrite ?inject_Z_opp; field; assumption.
+Qed.
+
+(* the exact quotient, with the numerator scaled by 10^k *)
+Lemma qval_div : forall n1 c1 e1 n2 c2 e2 k, c2 <> 0 -> 0 <= k ->
+  (qval n1 c1 e1 / qval n2 c2 e2 ==
+   inject_Z (sgn (xorb n1 n2) (c1 * 10 ^ k)) / inject_Z c2 * inject_Z 10 ^ (e1 - e2 - k))%Q.
+Proof.
+  intros n1 c1 e1 n2 c2 e2 k H Hk. unfold qval.
+  pose proof (inject_Z_neq0 c2 H) as N.
+  assert (N2 : ~ (inject_Z (sgn n2 c2) == 0)%Q) by (apply inject_Z_neq0; destruct n2; unfold sgn; lia).
+  rewrite sgn_mul, inject_Z_mult, Zpower_Qpower by lia.
+  replace (e1 - e2 - k) with (e1 + (- e2) + (- k)) by lia.
+  rewrite !Qpower_plus by exact ten_neq0. rewrite !Qpower_opp.
+  pose proof (ten_pow_neq0 e2) as T2. pose proof (ten_pow_neq0 k) as Tk.
+  transitivity (inject_Z (sgn n1 c1) / inject_Z (sgn n2 c2) * (inject_Z 10 ^ e1 / inject_Z 10 ^ e2))%Q.
+  - field. split; assumption.
+  - rewrite sgn_xorb_inj by assumption. field. repeat split; assumption.
+Qed.
+
+Theorem quo_exact : forall a b, finite a -> finite b -> ~ (Qv b == 0)%Q ->
+  fits34 (Qv a / Qv b) ->
+  canonical (dec_quo a b) /\ (Qv (dec_quo a b) == Qv a / Qv b)%Q.
+Proof.
+  intros [n1 c1 e1| |] [n2 c2 e2| |] Ha Hb Hnz HF; simpl in Ha, Hb; try contradiction.
+  change (Qv (DFin n1 c1 e1)) with (qval n1 c1 e1) in *.
+  change (Qv (DFin n2 c2 e2)) with (qval n2 c2 e2) in *.
+  assert (Hc2 : 0 < c2).
+  { destruct (Z.eq_dec c2 0) as [->|]; [|lia]. exfalso. apply Hnz. apply qval_zero. }
+  unfold dec_quo. destruct (Z.eqb_spec c2 0) as [|_]; [lia|].
+  destruct (Z.eqb_spec c1 0) as [->|Hc1].
+  - split.
+    + unfold canonical. rewrite digits_nonpos by lia. unfold prec34, emin, emax. lia.
+    + simpl Qv. rewrite !qval_zero. unfold Qdiv. ring.
+  - assert (Hc1' : 0 < c1) by lia.
+    set (k := Z.max 0 (prec34 + 3 + digits c2 - digits c1)).
+    assert (Hk : 0 <= k) by (unfold k; lia).
+    unfold pow10. set (num := c1 * 10 ^ k).
+    set (x := xorb n1 n2). set (E := e1 - e2 - k).
+    pose proof (qval_div n1 c1 e1 n2 c2 e2 k ltac:(lia) Hk) as QD. fold num x E in QD.
+    assert (Pk : 0 < 10 ^ k) by (apply pow10_pos; lia).
+    assert (Hnum : 0 < num) by (unfold num; nia).
+    pose proof (Z.div_mod num c2 ltac:(lia)) as DM.
+    pose proof (Z.mod_pos_bound num c2 Hc2) as MB.
+    assert (N2 : ~ (inject_Z c2 == 0)%Q) by (apply inject_Z_neq0; lia).
+    destruct (Z.eqb_spec (num mod c2) 0) as [R0|R0].
+    + (* the division terminates: one exact rounding *)
+      apply fit_value_exact'; [apply Z.div_pos; lia | | exact HF].
+      rewrite QD. unfold qval. apply Qmult_comp; [|reflexivity].
+      replace num with ((num / c2) * c2) at 2 by lia.
+      rewrite sgn_mul, inject_Z_mult. field. exact N2.
+    + (* a non-terminating (or too long) quotient is not representable *)
+      exfalso. destruct (fits34_comp _ _ QD HF) as (m & j & Hm & Hj & HV).
+      assert (HV2 : (qval x num E == inject_Z (m * c2) * inject_Z 10 ^ j)%Q).
+      { unfold qval. rewrite inject_Z_mult.
+        transitivity (inject_Z (sgn x num) / inject_Z c2 * inject_Z 10 ^ E * inject_Z c2)%Q;
+          [field; exact N2|]. rewrite HV. ring. }
+      apply qval_abs_eq in HV2; [|lia].
+      rewrite Z.abs_mul, (Z.abs_eq c2) in HV2 by lia.
+      destruct (Z_le_gt_dec E j) as [HEj|HEj].
+      * pose proof (qval_eq_int E num E _ j ltac:(lia) ltac:(lia) HV2) as EI.
+        rewrite Z.sub_diag, Z.mul_1_r in EI.
+        apply R0. rewrite EI.
+        replace (Z.abs m * c2 * 10 ^ (j - E)) with (Z.abs m * 10 ^ (j - E) * c2) by ring.
+        apply Z.mod_mul. lia.
+      * pose proof (qval_eq_int j num E _ j ltac:(lia) ltac:(lia) HV2) as EI.
+        rewrite Z.sub_diag, Z.mul_1_r in EI.
+        assert (PE : 0 < 10 ^ (E - j)) by (apply pow10_pos; lia).
+        (* num >= 10^36 * c2 *)
+        pose proof (digits_spec c1 Hc1') as [L1 U1]. pose proof (digits_spec c2 Hc2) as [L2 U2].
+        pose proof (digits_pos c1 Hc1'). pose proof (digits_pos c2 Hc2).
+        assert (B : 10 ^ 36 * 10 ^ digits c2 <= num).
+        { unfold num. rewrite <- Z.pow_add_r by lia.
+          apply Z.le_trans with (10 ^ (digits c1 - 1) * 10 ^ k); [|nia].
+          rewrite <- Z.pow_add_r by lia. apply Z.pow_le_mono_r; [lia|].
+          unfold k, prec34. lia. }
+        assert (10 ^ 36 * c2 < num) by nia.
+        assert (Z.abs m * c2 < 10 ^ 34 * c2) by nia.
+        assert (num <= num * 10 ^ (E - j)) by nia.
+        change (10 ^ 36) with (100 * 10 ^ 34) in *. nia.
+Qed.
+
+(* ------------------------------------------------------------------ *)
+(* The operators, end to end                                           *)
+(* ------------------------------------------------------------------ *)
+
+Section OperatorsExact.
+  Variables (x y : value) (a b : dec).
+  Hypothesis HF : to_float x = None \/ to_float y = None.
+  Hypothesis Hx : to_decimal x = Some a.
+  Hypothesis Hy : to_decimal y = Some b.
+  Hypothesis Ha : finite a.
+  Hypothesis Hb : finite b.
+
+  Lemma arith_exact_gen : forall fop dop (r : Q),
+    canonical (dop a b) /\ (Qv (dop a b) == r)%Q ->
+    exists d, arith fop dop x y = Ok (vdec d) /\ canonical d /\ (Qv d == r)%Q.
+  Proof.
+    intros fop dop r [H1 H2]. exists (dop a b). split; [|split; assumption].
+    rewrite no_float_detour by assumption. rewrite Hx, Hy.
+    apply trap_fin. apply finite_fin, canonical_finite, H1.
+  Qed.
+
+  Theorem add_op_exact : fits34 (Qv a + Qv b) ->
+    exists d, add x y = Ok (vdec d) /\ canonical d /\ (Qv d == Qv a + Qv b)%Q.
+  Proof. intros H. apply arith_exact_gen. apply add_exact; assumption. Qed.
+
+  Theorem subtract_op_exact : fits34 (Qv a - Qv b) ->
+    exists d, subtract x y = Ok (vdec d) /\ canonical d /\ (Qv d == Qv a - Qv b)%Q.
+  Proof. intros H. apply arith_exact_gen. apply sub_exact; assumption. Qed.
+
+  Theorem multiply_op_exact : fits34 (Qv a * Qv b) ->
+    exists d, multiply x y = Ok (vdec d) /\ canonical d /\ (Qv d == Qv a * Qv b)%Q.
+  Proof. intros H. apply arith_exact_gen. apply mul_exact; assumption. Qed.
+
+  Theorem divide_op_exact : ~ (Qv b == 0)%Q -> fits34 (Qv a / Qv b) ->
+    exists d, divide x y = Ok (vdec d) /\ canonical d /\ (Qv d == Qv a / Qv b)%Q.
+  Proof. intros H0 H. apply arith_exact_gen. apply quo_exact; assumption. Qed.
+End OperatorsExact.
+
+(* avg: exact when the partial sums and the final quotient are representable *)
+Lemma dec_of_Z_small : forall z, 0 <= z < 10 ^ 34 -> dec_of_Z z = DFin false z 0.
+Proof.
+  intros z Hz. unfold dec_of_Z. rewrite Z.abs_eq by lia.
+  destruct (Z.ltb_spec z 0); [lia|].
+  apply fit_exact; [lia | apply digits_le_of_lt; unfold prec34; lia | unfold emin, emax; lia].
+Qed.
+
+Theorem avg_exact_when_partial_sums_fit : forall l ds,
+  l <> [] -> Z.of_nat (List.length l) < 10 ^ 34 ->
+  Forall2 (fun v d => to_decimal v = Some d) l ds ->
+  partial_sums_fit 0 ds ->
+  fits34 (qsum ds / inject_Z (Z.of_nat (List.length l))) ->
+  exists d, avg (VArr l) = Ok (vdec d) /\ canonical d /\
+            (Qv d == qsum ds / inject_Z (Z.of_nat (List.length l)))%Q.
+Proof.
+  intros l ds Hne Hlen HF HP HQ.
+  assert (Z0 : (0 == Qv dec_zero)%Q) by (unfold dec_zero; simpl; rewrite qval_zero; reflexivity).
+  destruct (sum_loop_exact l ds dec_zero HF ltac:(simpl; lia)
+              (partial_sums_fit_comp ds _ _ Z0 HP)) as (s & E1 & E2 & E3).
+  assert (E3' : (Qv s == qsum ds)%Q) by (rewrite E3, <- Z0; ring).
+  set (n := Z.of_nat (List.length l)) in *.
+  assert (Hn : 0 < n) by (unfold n; destruct l; [contradiction | simpl List.length; lia]).
+  assert (EN : dec_of_Z n = DFin false n 0) by (apply dec_of_Z_small; lia).
+  assert (QN : (Qv (DFin false n 0) == inject_Z n)%Q) by (simpl; apply qval_e0).
+  assert (NZ : ~ (Qv (DFin false n 0) == 0)%Q).
+  { rewrite QN. apply inject_Z_neq0. lia. }
+  assert (EQ : (Qv s / Qv (DFin false n 0) == qsum ds / inject_Z n)%Q) by (rewrite E3', QN; reflexivity).
+  destruct (quo_exact s (DFin false n 0) E2 ltac:(simpl; lia) NZ
+              (fits34_comp _ _ (Qeq_sym _ _ EQ) HQ)) as [C1 C2].
+  exists (dec_quo s (DFin false n 0)). split; [|split; [exact C1 | rewrite C2; exact EQ]].
+  unfold avg. destruct l as [|v l']; [contradiction|]. rewrite E1. cbn [bind].
+  fold n. rewrite EN. apply trap_fin. apply finite_fin, canonical_finite, C1.
+Qed.
+
+(* ------------------------------------------------------------------ *)
+(* Rounding error and overflow threshold of fit                        *)
+(* ------------------------------------------------------------------ *)
+
+(* rounding the coefficient: the result, rescaled to the original exponent,
+   is within half a unit of the 34th digit of c *)
+Lemma round_coef_err : forall c e c1 e1, 0 < c -> round_coef c e = (c1, e1) ->
+  exists j, 0 <= j /\ e1 = e + j /\ 0 < c1 /\ digits c1 <= prec34 /\
+            2 * Z.abs (c1 * 10 ^ j - c) <= 10 ^ (digits c - prec34) /\
+            (digits c <= prec34 -> j = 0 /\ c1 = c) /\
+            (prec34 < digits c -> digits c - prec34 <= j /\
+               10 ^ 33 * 10 ^ (digits c - prec34) <= c1 * 10 ^ j <= 10 ^ 34 * 10 ^ (digits c - prec34)).
+Proof.
+  intros c e c1 e1 Hc. unfold round_coef.
+  destruct (Z.leb_spec (digits c) prec34) as [Hd|Hd].
+  - intros E; inversion E; subst c1 e1. exists 0. rewrite Z.mul_1_r, Z.sub_diag. simpl Z.abs.
+    assert (0 <= 10 ^ (digits c - prec34)) by (apply Z.pow_nonneg; lia).
+    repeat split; try lia.
+  - unfold prec34 in *. set (d := digits c) in *. set (k := d - 34).
+    pose proof (digits_spec c Hc) as [L U]. fold d in L, U.
+    assert (Hk : 0 < k) by (unfold k; lia).
+    pose proof (drop_digits_bounds c k ltac:(lia) Hk) as [[B1 B2] B3].
+    assert (Pk : 0 < 10 ^ k) by (apply pow10_pos; lia).
+    assert (QL : 10 ^ 33 <= c / 10 ^ k).
+    { apply Z.div_le_lower_bound; [lia|]. rewrite <- Z.pow_add_r by lia.
+      replace (k + 33) with (d - 1) by (unfold k; lia). exact L. }
+    assert (QU : c / 10 ^ k < 10 ^ 34).
+    { apply Z.div_lt_upper_bound; [lia|]. rewrite <- Z.pow_add_r by lia.
+      replace (k + 34) with d by (unfold k; lia). exact U. }
+    set (q := drop_digits c k) in *. clearbody q.
+    assert (P33 : 0 < 10 ^ 33) by reflexivity.
+    destruct (Z.gtb_spec (digits q) 34) as [Hq|Hq]; intros E; inversion E; subst c1 e1.
+    + assert (H : q = 10 ^ 34).
+      { destruct (Z.eq_dec q (10 ^ 34)); [assumption|]. exfalso.
+        assert (digits q <= 34) by (apply digits_le_of_lt; lia). lia. }
+      exists (k + 1). rewrite H in *. change (10 ^ 34 / 10) with (10 ^ 33).
+      assert (E1 : 10 ^ 33 * 10 ^ (k + 1) = 10 ^ 34 * 10 ^ k).
+      { rewrite Z.pow_add_r by lia. change (10 ^ 34) with (10 ^ 33 * 10 ^ 1). ring. }
+      rewrite E1. repeat split; try lia.
+      apply digits_le_of_lt; [lia | reflexivity].
+    + exists k. repeat split; try lia; apply Z.mul_le_mono_nonneg_r; lia.
+Qed.
+
+(* the second stage of fit in the normal range (no subnormal rounding) *)
+Lemma fit_normal : forall n c e c1 e1, round_coef c e = (c1, e1) ->
+  0 < c1 -> digits c1 <= prec34 -> emin <= e1 ->
+  (emax < e1 /\ prec34 < digits c1 + (e1 - emax) /\ fit n c e = DInf n) \/
+  (exists c' e', fit n c e = DFin n c' e' /\ canonical (DFin n c' e') /\
+                 (qval n c' e' == qval n c1 e1)%Q /\
+                 (e1 <= emax \/ digits c1 + (e1 - emax) <= prec34)).
+Proof.
+  intros n c e c1 e1 ER Hc1 Hd He. unfold fit. rewrite ER.
+  destruct (Z.eqb_spec c1 0) as [|_]; [lia|].
+  destruct (Z.gtb_spec e1 emax) as [Hhi|Hhi].
+  - destruct (Z.leb_spec (digits c1 + (e1 - emax)) prec34) as [Hp|Hp].
+    + right. exists (c1 * pow10 (e1 - emax)), emax. unfold pow10.
+      assert (0 < 10 ^ (e1 - emax)) by (apply pow10_pos; lia).
+      split; [reflexivity|]. split; [|split; [|right; assumption]].
+      * unfold canonical. rewrite digits_mul_pow by lia.
+        split; [nia|]. split; [assumption|]. unfold emin, emax; lia.
+      * rewrite qval_shift by lia. replace (emax + (e1 - emax)) with e1 by lia. reflexivity.
+    + left. repeat split; assumption.
+  - destruct (Z.ltb_spec e1 emin); [lia|].
+    right. exists c1, e1. split; [reflexivity|]. split; [|split; [reflexivity | left; assumption]].
+    unfold canonical. repeat split; lia.
+Qed.
+
+(* one unit of the 34th significant digit of r *)
+Definition is_ulp34 (r u : Q) : Prop :=
+  exists p : Z, (inject_Z 10 ^ p <= Qabs r)%Q /\ (Qabs r < inject_Z 10 ^ (p + 1))%Q /\
+                (u == inject_Z 10 ^ (p - 33))%Q.
+
+Lemma Qabs_qval : forall n c e, 0 <= c -> (Qabs (qval n c e) == inject_Z c * inject_Z 10 ^ e)%Q.
+Proof. intros. rewrite qval_false_abs by assumption. reflexivity. Qed.
+
+Lemma qval_ulp : forall n c e, 0 < c ->
+  is_ulp34 (qval n c e) (inject_Z 10 ^ (digits c + e - prec34)).
+Proof.
+  intros n c e Hc. exists (digits c - 1 + e).
+  pose proof (digits_spec c Hc) as [L U]. pose proof (digits_pos c Hc) as Dp.
+  rewrite Qabs_qval by lia. split; [|split].
+  - rewrite Qpower_plus by exact ten_neq0. apply Qmult_le_compat_r; [|apply Qlt_le_weak, ten_pow_pos].
+    rewrite <- Zpower_Qpower by lia. rewrite <- Zle_Qle. exact L.
+  - replace (digits c - 1 + e + 1) with (digits c + e) by lia.
+    rewrite Qpower_plus by exact ten_neq0. apply Qmult_lt_compat_r; [apply ten_pow_pos|].
+    rewrite <- Zpower_Qpower by lia. rewrite <- Zlt_Qlt. exact U.
+  - unfold prec34. replace (digits c - 1 + e - 33) with (digits c + e - 34) by lia. reflexivity.
+Qed.
+
+(* difference of two values at a common exponent *)
+Lemma qval_diff_abs : forall n a b e, 0 <= a -> 0 <= b ->
+  (Qabs (qval n a e - qval n b e) == inject_Z (Z.abs (a - b)) * inject_Z 10 ^ e)%Q.
+Proof.
+  intros n a b e Ha Hb. unfold qval.
+  setoid_replace (inject_Z (sgn n a) * inject_Z 10 ^ e - inject_Z (sgn n b) * inject_Z 10 ^ e)%Q
+    with (inject_Z (sgn n a - sgn n b) * inject_Z 10 ^ e)%Q
+    by (unfold Z.sub; rewrite inject_Z_plus, inject_Z_opp; ring).
+  rewrite Qabs_Qmult. rewrite (Qabs_pos (inject_Z 10 ^ e)) by (apply Qlt_le_weak, ten_pow_pos).
+  apply Qmult_comp; [|reflexivity].
+  unfold Qabs, inject_Z. simpl.
+  replace (Z.abs (sgn n a - sgn n b)) with (Z.abs (a - b)) by (destruct n; unfold sgn; lia).
+  reflexivity.
+Qed.
+
+(* In the normal range, fit either overflows or returns a canonical decimal
+   within HALF a unit of the 34th significant digit of the exact value. *)
+Theorem fit_close : forall n c e, 0 < c -> emin <= digits c + e - prec34 ->
+  fit n c e = DInf n \/
+  exists c' e', fit n c e = DFin n c' e' /\ canonical (DFin n c' e') /\
+    (Qabs (qval n c' e' - qval n c e) <= (1 # 2) * inject_Z 10 ^ (digits c + e - prec34))%Q.
+Proof.
+  intros n c e Hc Hnorm.
+  destruct (round_coef c e) as [c1 e1] eqn:ER.
+  destruct (round_coef_err c e c1 e1 Hc ER) as (j & Hj & He1 & Hc1 & Hd1 & Herr & Hsmall & Hbig).
+  assert (Hn1 : emin <= e1).
+  { destruct (Z_le_gt_dec (digits c) prec34) as [Hd|Hd].
+    - destruct (Hsmall Hd) as [-> ->]. unfold prec34 in *. lia.
+    - destruct (Hbig ltac:(lia)) as [Hkj _]. lia. }
+  destruct (fit_normal n c e c1 e1 ER Hc1 Hd1 Hn1) as [(_ & _ & HI)|(c' & e' & EF & HC & HV & _)];
+    [left; exact HI | right].
+  exists c', e'. split; [exact EF|]. split; [exact HC|].
+  rewrite HV. subst e1. rewrite <- (qval_shift n c1 e j Hj).
+  assert (P : 0 < 10 ^ j) by (apply pow10_pos; lia).
+  rewrite qval_diff_abs by nia.
+  destruct (Z_le_gt_dec (digits c) prec34) as [Hd|Hd].
+  - destruct (Hsmall Hd) as [-> ->]. rewrite Z.mul_1_r, Z.sub_diag. simpl Z.abs.
+    setoid_replace (inject_Z 0 * inject_Z 10 ^ e)%Q with 0%Q by ring.
+    apply Qmult_le_0_compat; [discriminate | apply Qlt_le_weak, ten_pow_pos].
+  - replace (digits c + e - prec34) with ((digits c - prec34) + e) by lia.
+    rewrite Qpower_plus by exact ten_neq0. rewrite Qmult_assoc.
+    apply Qmult_le_compat_r; [|apply Qlt_le_weak, ten_pow_pos].
+    rewrite <- Zpower_Qpower by lia.
+    apply Qmult_le_l with (z := inject_Z 2); [reflexivity|].
+    setoid_replace (inject_Z 2 * ((1 # 2) * inject_Z (10 ^ (digits c - prec34))))%Q
+      with (inject_Z (10 ^ (digits c - prec34))) by (simpl; field).
+    rewrite <- inject_Z_mult. rewrite <- Zle_Qle. exact Herr.
+Qed.
+
+Lemma is_ulp34_comp : forall r s u, (r == s)%Q -> is_ulp34 r u -> is_ulp34 s u.
+Proof.
+  intros r s u E (p & H1 & H2 & H3). exists p. rewrite <- E. repeat split; assumption.
+Qed.
+
+(* the unit in the last place is determined by the value *)
+Lemma is_ulp34_unique : forall r u v, is_ulp34 r u -> is_ulp34 r v -> (u == v)%Q.
+Proof.
+  intros r u v (p & A1 & A2 & A3) (p' & B1 & B2 & B3).
+  assert (T : (1 < inject_Z 10)%Q) by reflexivity.
+  assert (p < p' + 1).
+  { apply (Qpower_lt_compat_l_inv (inject_Z 10)); [|exact T].
+    eapply Qle_lt_trans; [exact A1 | exact B2]. }
+  assert (p' < p + 1).
+  { apply (Qpower_lt_compat_l_inv (inject_Z 10)); [|exact T].
+    eapply Qle_lt_trans; [exact B1 | exact A2]. }
+  assert (p = p') by lia. subst p'. rewrite A3, B3. reflexivity.
+Qed.
+
+(* the smallest normal magnitude: 10^(emin+33) = 1e-6143 *)
+Definition normal (r : Q) : Prop := (inject_Z 10 ^ (emin + 33) <= Qabs r)%Q.
+
+Lemma normal_digits : forall n c e, 0 < c -> normal (qval n c e) ->
+  emin <= digits c + e - prec34.
+Proof.
+  intros n c e Hc HN. unfold normal in HN.
+  destruct (qval_ulp n c e Hc) as (p & P1 & P2 & _).
+  pose proof (digits_spec c Hc) as [L U]. pose proof (digits_pos c Hc) as Dp.
+  assert (H : (Qabs (qval n c e) < inject_Z 10 ^ (digits c + e))%Q).
+  { rewrite Qabs_qval by lia. rewrite Qpower_plus by exact ten_neq0.
+    apply Qmult_lt_compat_r; [apply ten_pow_pos|].
+    rewrite <- Zpower_Qpower by lia. rewrite <- Zlt_Qlt. exact U. }
+  assert (emin + 33 < digits c + e).
+  { apply (Qpower_lt_compat_l_inv (inject_Z 10)); [|reflexivity].
+    eapply Qle_lt_trans; [exact HN | exact H]. }
+  unfold prec34. lia.
+Qed.
+
+Theorem fit_close_ulp : forall n c e r, 0 <= c -> (qval n c e == r)%Q -> normal r ->
+  fit n c e = DInf n \/
+  (canonical (fit n c e) /\
+   exists u, is_ulp34 r u /\ (Qabs (Qv (fit n c e) - r) <= (1 # 2) * u)%Q).
+Proof.
+  intros n c e r Hc E HN.
+  assert (Hc' : 0 < c).
+  { destruct (Z.eq_dec c 0) as [->|]; [|lia]. exfalso. unfold normal in HN.
+    rewrite <- E, qval_zero in HN. simpl in HN.
+    pose proof (ten_pow_pos (emin + 33)) as P.
+    apply (Qlt_irrefl 0). eapply Qlt_le_trans; [exact P | exact HN]. }
+  assert (HN' : normal (qval n c e)) by (unfold normal; rewrite E; exact HN).
+  destruct (fit_close n c e Hc' (normal_digits n c e Hc' HN')) as [HI|(c' & e' & EF & HC & HB)];
+    [left; exact HI | right].
+  rewrite EF. split; [exact HC|].
+  exists (inject_Z 10 ^ (digits c + e - prec34))%Q. split.
+  - apply (is_ulp34_comp _ _ _ E). apply qval_ulp. exact Hc'.
+  - simpl Qv. rewrite <- E. exact HB.
+Qed.
+
+(* + - * : overflow, or within half an ulp of the exact result *)
+Definition close_to (half : bool) (d : dec) (r : Q) : Prop :=
+  canonical d /\ exists u, is_ulp34 r u /\
+    (Qabs (Qv d - r) <= (if half then (1 # 2) * u else u))%Q.
+
+Theorem mul_close : forall a b, finite a -> finite b -> normal (Qv a * Qv b) ->
+  (exists s, dec_mul a b = DInf s) \/ close_to true (dec_mul a b) (Qv a * Qv b).
+Proof.
+  intros [n1 c1 e1| |] [n2 c2 e2| |] Ha Hb HN; simpl in Ha, Hb; try contradiction.
+  change (Qv (DFin n1 c1 e1)) with (qval n1 c1 e1) in *.
+  change (Qv (DFin n2 c2 e2)) with (qval n2 c2 e2) in *.
+  unfold dec_mul.
+  destruct (fit_close_ulp (xorb n1 n2) (c1 * c2) (e1 + e2) _
+             (Z.mul_nonneg_nonneg _ _ Ha Hb) (qval_mul n1 c1 e1 n2 c2 e2) HN) as [HI|HC].
+  - left. eexists; exact HI.
+  - right. exact HC.
+Qed.
+
+Theorem add_close : forall a b, finite a -> finite b -> normal (Qv a + Qv b) ->
+  (exists s, dec_add a b = DInf s) \/ close_to true (dec_add a b) (Qv a + Qv b).
+Proof.
+  intros [n1 c1 e1| |] [n2 c2 e2| |] Ha Hb HN; simpl in Ha, Hb; try contradiction.
+  change (Qv (DFin n1 c1 e1)) with (qval n1 c1 e1) in *.
+  change (Qv (DFin n2 c2 e2)) with (qval n2 c2 e2) in *.
+  pose proof (qval_add n1 c1 e1 n2 c2 e2) as HQ.
+  unfold dec_add, align in *. cbv beta iota zeta in *.
+  set (e := Z.min e1 e2) in *.
+  set (s := sgn n1 (c1 * pow10 (e1 - e)) + sgn n2 (c2 * pow10 (e2 - e))) in *.
+  destruct (Z.eqb_spec s 0) as [E0|E0].
+  - exfalso. rewrite E0 in HQ. simpl in HQ. unfold normal in HN.
+    rewrite <- HQ, qval_zero in HN. simpl in HN.
+    pose proof (ten_pow_pos (emin + 33)) as P.
+    apply (Qlt_irrefl 0). eapply Qlt_le_trans; [exact P | exact HN].
+  - destruct (fit_close_ulp (s <? 0) (Z.abs s) e _ (Z.abs_nonneg s) HQ HN) as [HI|HC].
+    + left. eexists; exact HI.
+    + right. exact HC.
+Qed.
+
+Theorem sub_close : forall a b, finite a -> finite b -> normal (Qv a - Qv b) ->
+  (exists s, dec_sub a b = DInf s) \/ close_to true (dec_sub a b) (Qv a - Qv b).
+Proof.
+  intros a b Ha Hb HN. unfold dec_sub.
+  assert (E : (Qv a + Qv (dec_neg b) == Qv a - Qv b)%Q) by (rewrite Qv_neg; reflexivity).
+  assert (HN' : normal (Qv a + Qv (dec_neg b))) by (unfold normal; rewrite E; exact HN).
+  destruct (add_close a (dec_neg b) Ha (finite_neg b Hb) HN') as [HI|(HC & u & HU & HB)].
+  - left. exact HI.
+  - right. split; [exact HC|]. exists u. split; [exact (is_ulp34_comp _ _ _ E HU)|].
+    rewrite <- E. exact HB.
+Qed.
+
+(* ------------------------------------------------------------------ *)
+(* Division: within one ulp                                            *)
+(* ------------------------------------------------------------------ *)
+
+Definition sig (x : bool) : Q := if x then (- (1))%Q else 1%Q.
+
+Lemma sgn_Q : forall x z, (inject_Z (sgn x z) == sig x * inject_Z z)%Q.
+Proof. intros [] z; unfold sgn, sig; rewrite ?inject_Z_opp; ring. Qed.
+
+Lemma Qabs_sig : forall x t, (Qabs (sig x * t) == Qabs t)%Q.
+Proof.
+  intros [] t; unfold sig.
+  - setoid_replace (- (1) * t)%Q with (- t)%Q by ring. apply Qabs_opp.
+  - setoid_replace (1 * t)%Q with t by ring. reflexivity.
+Qed.
+
+Lemma quo_num_big : forall c1 c2, 0 < c1 -> 0 < c2 ->
+  10 ^ 36 * c2 < c1 * 10 ^ (Z.max 0 (prec34 + 3 + digits c2 - digits c1)).
+Proof.
+  intros c1 c2 Hc1 Hc2. set (k := Z.max 0 (prec34 + 3 + digits c2 - digits c1)).
+  pose proof (digits_spec c1 Hc1) as [L1 U1]. pose proof (digits_spec c2 Hc2) as [L2 U2].
+  pose proof (digits_pos c1 Hc1). pose proof (digits_pos c2 Hc2).
+  assert (Pk : 0 < 10 ^ k) by (apply pow10_pos; unfold k; lia).
+  assert (B : 10 ^ 36 * 10 ^ digits c2 <= c1 * 10 ^ k).
+  { rewrite <- Z.pow_add_r by lia.
+    apply Z.le_trans with (10 ^ (digits c1 - 1) * 10 ^ k); [|nia].
+    rewrite <- Z.pow_add_r by (unfold k; lia). apply Z.pow_le_mono_r; [lia|].
+    unfold k, prec34. lia. }
+  assert (0 < 10 ^ 36) by reflexivity. nia.
+Qed.
+
+Lemma half_le : forall u : Q, (0 <= u)%Q -> ((1 # 2) * u <= u)%Q.
+Proof.
+  intros u Hu. setoid_replace u with (1 * u)%Q at 2 by ring.
+  apply Qmult_le_compat_r; [discriminate | exact Hu].
+Qed.
+
+Lemma is_ulp34_pos : forall r u, is_ulp34 r u -> (0 < u)%Q.
+Proof. intros r u (p & _ & _ & E). rewrite E. apply ten_pow_pos. Qed.
+
+Theorem quo_close : forall a b, finite a -> finite b -> ~ (Qv b == 0)%Q ->
+  normal (Qv a / Qv b) ->
+  (exists s, dec_quo a b = DInf s) \/ close_to false (dec_quo a b) (Qv a / Qv b).
+Proof.
+  intros [n1 c1 e1| |] [n2 c2 e2| |] Ha Hb Hnz HN; simpl in Ha, Hb; try contradiction.
+  change (Qv (DFin n1 c1 e1)) with (qval n1 c1 e1) in *.
+  change (Qv (DFin n2 c2 e2)) with (qval n2 c2 e2) in *.
+  assert (Hc2 : 0 < c2).
+  { destruct (Z.eq_dec c2 0) as [->|]; [|lia]. exfalso. apply Hnz. apply qval_zero. }
+  assert (Hc1 : 0 < c1).
+  { destruct (Z.eq_dec c1 0) as [->|]; [|lia]. exfalso. unfold normal in HN.
+    assert (Z0 : (qval n1 0 e1 / qval n2 c2 e2 == 0)%Q) by (rewrite qval_zero; unfold Qdiv; ring).
+    rewrite Z0 in HN. simpl in HN. pose proof (ten_pow_pos (emin + 33)) as P.
+    apply (Qlt_irrefl 0). eapply Qlt_le_trans; [exact P | exact HN]. }
+  unfold dec_quo. destruct (Z.eqb_spec c2 0) as [|_]; [lia|].
+  destruct (Z.eqb_spec c1 0) as [|_]; [lia|].
+  pose proof (quo_num_big c1 c2 Hc1 Hc2) as BIG.
+  set (k := Z.max 0 (prec34 + 3 + digits c2 - digits c1)) in *.
+  assert (Hk : 0 <= k) by (unfold k; lia).
+  unfold pow10. set (num := c1 * 10 ^ k) in *.
+  set (x := xorb n1 n2). set (E := e1 - e2 - k).
+  pose proof (qval_div n1 c1 e1 n2 c2 e2 k ltac:(lia) Hk) as QD. fold num x E in QD.
+  set (V := (qval n1 c1 e1 / qval n2 c2 e2)%Q) in *.
+  assert (Hnum : 0 < num) by (assert (0 < 10 ^ 36) by reflexivity; nia).
+  pose proof (Z.div_mod num c2 ltac:(lia)) as DM.
+  pose proof (Z.mod_pos_bound num c2 Hc2) as MB.
+  assert (N2 : ~ (inject_Z c2 == 0)%Q) by (apply inject_Z_neq0; lia).
+  assert (P2 : (0 < inject_Z c2)%Q) by (rewrite (Zlt_Qlt 0 c2) in Hc2; exact Hc2).
+  destruct (Z.eqb_spec (num mod c2) 0) as [R0|R0].
+  - (* terminating quotient: correctly rounded *)
+    assert (EV : (qval x (num / c2) E == V)%Q).
+    { rewrite QD. unfold qval. apply Qmult_comp; [|reflexivity].
+      replace num with ((num / c2) * c2) at 2 by lia.
+      rewrite sgn_mul, inject_Z_mult. field. exact N2. }
+    destruct (fit_close_ulp x (num / c2) E V ltac:(apply Z.div_pos; lia) EV HN)
+      as [HI|(HC & u & HU & HB)].
+    + left. eexists; exact HI.
+    + right. split; [exact HC|]. exists u. split; [exact HU|].
+      eapply Qle_trans; [exact HB|]. apply half_le. apply Qlt_le_weak, (is_ulp34_pos _ _ HU).
+  - (* non-terminating: sticky digit, then one rounding *)
+    set (q := num / c2) in *. set (r := num mod c2) in *.
+    assert (Hq36 : 10 ^ 36 <= q).
+    { apply Z.div_le_lower_bound; lia. }
+    assert (Hq : 0 < q) by (assert (0 < 10 ^ 36) by reflexivity; lia).
+    pose proof (digits_spec q Hq) as [Lq Uq]. set (dq := digits q) in *.
+    assert (Hdq : 37 <= dq).
+    { assert (36 < dq); [|lia]. apply pow10_lt_inv; [|lia].
+      destruct (Z_lt_le_dec dq 0); [|lia]. rewrite Z.pow_neg_r in Uq by lia. lia. }
+    set (c' := q * 10 + 1).
+    assert (Hc' : 0 < c') by (unfold c'; lia).
+    assert (Dc' : digits c' = dq + 1).
+    { apply digits_unique; [exact Hc'|]. replace (dq + 1 - 1) with dq by lia.
+      rewrite Z.pow_add_r by lia. change (10 ^ 1) with 10.
+      replace dq with (Z.succ (dq - 1)) at 1 by lia. rewrite Z.pow_succ_r by lia.
+      unfold c'. lia. }
+    (* rho = num / c2 lies strictly between q and q+1 *)
+    set (rho := (inject_Z num / inject_Z c2)%Q).
+    assert (R1 : (inject_Z q < rho)%Q).
+    { unfold rho. apply Qlt_shift_div_l; [exact P2|].
+      rewrite <- inject_Z_mult, <- Zlt_Qlt. lia. }
+    assert (R2 : (rho < inject_Z (q + 1))%Q).
+    { unfold rho. apply Qlt_shift_div_r; [exact P2|].
+      rewrite <- inject_Z_mult, <- Zlt_Qlt. lia. }
+    assert (EVr : (V == sig x * (rho * inject_Z 10 ^ E))%Q).
+    { rewrite QD, sgn_Q. unfold rho. field. exact N2. }
+    assert (Rpos : (0 < rho)%Q).
+    { eapply Qlt_trans; [|exact R1]. change 0%Q with (inject_Z 0). rewrite <- Zlt_Qlt. exact Hq. }
+    assert (AV : (Qabs V == rho * inject_Z 10 ^ E)%Q).
+    { rewrite EVr, Qabs_sig. apply Qabs_pos.
+      apply Qmult_le_0_compat; apply Qlt_le_weak; [exact Rpos | apply ten_pow_pos]. }
+    (* the unit in the last place of V *)
+    set (U := (inject_Z 10 ^ (dq + E - 34))%Q).
+    assert (HU : is_ulp34 V U).
+    { exists (dq - 1 + E). rewrite AV. split; [|split].
+      - rewrite Qpower_plus by exact ten_neq0.
+        apply Qmult_le_compat_r; [|apply Qlt_le_weak, ten_pow_pos].
+        rewrite <- Zpower_Qpower by lia. apply Qlt_le_weak.
+        eapply Qle_lt_trans; [|exact R1]. rewrite <- Zle_Qle. exact Lq.
+      - replace (dq - 1 + E + 1) with (dq + E) by lia.
+        rewrite Qpower_plus by exact ten_neq0.
+        apply Qmult_lt_compat_r; [apply ten_pow_pos|].
+        rewrite <- Zpower_Qpower by lia.
+        eapply Qlt_le_trans; [exact R2|]. rewrite <- Zle_Qle. lia.
+      - unfold U. replace (dq - 1 + E - 33) with (dq + E - 34) by lia. reflexivity. }
+    (* normality transfers to the sticky coefficient *)
+    assert (HNd : emin <= digits c' + (E - 1) - prec34).
+    { assert (HL : (Qabs V < inject_Z 10 ^ (dq + E))%Q).
+      { destruct HU as (p & _ & _ & _). rewrite AV.
+        rewrite Qpower_plus by exact ten_neq0.
+        apply Qmult_lt_compat_r; [apply ten_pow_pos|].
+        rewrite <- Zpower_Qpower by lia.
+        eapply Qlt_le_trans; [exact R2|]. rewrite <- Zle_Qle. lia. }
+      assert (emin + 33 < dq + E).
+      { apply (Qpower_lt_compat_l_inv (inject_Z 10)); [|reflexivity].
+        eapply Qle_lt_trans; [exact HN | exact HL]. }
+      rewrite Dc'. unfold prec34. lia. }
+    destruct (fit_close x c' (E - 1) Hc' HNd) as [HI|(c'' & e'' & EF & HC & HB)].
+    + left. eexists; exact HI.
+    + right. rewrite EF. split; [exact HC|]. exists U. split; [exact HU|].
+      simpl Qv. cbv iota.
+      replace (digits c' + (E - 1) - prec34) with (dq + E - 34) in HB by (rewrite Dc'; unfold prec34; lia).
+      fold U in HB.
+      (* distance between the sticky value and the exact quotient *)
+      assert (HW : (Qabs (qval x c' (E - 1) - V) <= (1 # 2) * U)%Q).
+      { assert (EW : (qval x c' (E - 1) - V ==
+                      sig x * ((inject_Z c' / inject_Z 10 - rho) * inject_Z 10 ^ E))%Q).
+        { rewrite EVr. unfold qval. rewrite sgn_Q.
+          replace (E - 1) with (E + - (1)) by lia.
+          rewrite Qpower_plus by exact ten_neq0. change (inject_Z 10 ^ (- (1)))%Q with (/ inject_Z 10)%Q.
+          field. }
+        rewrite EW, Qabs_sig, Qabs_Qmult.
+        rewrite (Qabs_pos (inject_Z 10 ^ E)) by (apply Qlt_le_weak, ten_pow_pos).
+        apply Qle_trans with (1 * inject_Z 10 ^ E)%Q.
+        - apply Qmult_le_compat_r; [|apply Qlt_le_weak, ten_pow_pos].
+          apply Qabs_Qle_condition. split.
+          + (* -1 <= c'/10 - rho  since rho < q+1 <= c'/10 + 1 *)
+            apply Qle_trans with (inject_Z q - inject_Z (q + 1))%Q.
+            * rewrite inject_Z_plus. simpl. ring_simplify. apply Qle_refl.
+            * apply Qplus_le_compat.
+              -- apply Qle_shift_div_l; [reflexivity|].
+                 rewrite <- inject_Z_mult, <- Zle_Qle. unfold c'. lia.
+              -- apply Qopp_le_compat. apply Qlt_le_weak. exact R2.
+          + apply Qle_trans with (inject_Z (q + 1) - inject_Z q)%Q.
+            * apply Qplus_le_compat.
+              -- apply Qle_shift_div_r; [reflexivity|].
+                 rewrite <- inject_Z_mult, <- Zle_Qle. unfold c'. lia.
+              -- apply Qopp_le_compat. apply Qlt_le_weak. exact R1.
+            * rewrite inject_Z_plus. simpl. ring_simplify. apply Qle_refl.
+        - (* 10^E <= U/2 because the quotient carries at least 37 digits *)
+          unfold U. replace (dq + E - 34) with ((dq - 34) + E) by lia.
+          rewrite Qpower_plus by exact ten_neq0. rewrite Qmult_assoc.
+          apply Qmult_le_compat_r; [|apply Qlt_le_weak, ten_pow_pos].
+          rewrite <- Zpower_Qpower by lia.
+          assert (10 ^ 3 <= 10 ^ (dq - 34)) by (apply Z.pow_le_mono_r; lia).
+          apply Qle_trans with ((1 # 2) * inject_Z (10 ^ 3))%Q; [discriminate|].
+          apply Qmult_le_l; [reflexivity|]. rewrite <- Zle_Qle. exact H. }
+      setoid_replace (qval x c'' e'' - V)%Q
+        with ((qval x c'' e'' - qval x c' (E - 1)) + (qval x c' (E - 1) - V))%Q by ring.
+      eapply Qle_trans; [apply Qabs_triangle|].
+      setoid_replace U with ((1 # 2) * U + (1 # 2) * U)%Q at 1 by (field).
+      apply Qplus_le_compat; assumption.
 Qed.
